@@ -9,6 +9,9 @@ from engine import symex
 from engine.symex import Unsupported
 
 float32 = _np.float32
+floating = _np.floating
+iinfo = _np.iinfo
+dtype = _np.dtype
 float64 = _np.float64
 int32 = _np.int32
 uint8 = _np.uint8
@@ -122,7 +125,39 @@ class Arr(object):
     return Arr(_to_data(self))
 
   def astype(self, dtype):
-    return self.copy()
+    r = self.copy()
+    if dtype in _INT_DTYPES or dtype in (int, int32, int64):
+      # C cast of floating-point samples: truncation toward zero
+      def cast(d):
+        return [cast(e) if isinstance(e, list) else
+                (e if isinstance(e, (int, symex.SymInt)) else _math.trunc(e))
+                for e in d]
+      r.data = cast(r.data)
+    if self.dtype is not None:
+      r.dtype = _np.dtype(dtype)
+    return r
+
+  def _inplace(self, o, f):
+    """In-place operators write through to the caller's array, as numpy's
+    do (slices are copies here, not views: in-place updates through a view are
+    outside the model)."""
+    r = self._ew(o, f)
+    if not isinstance(r, Arr) or r.shape != self.shape:
+      raise ValueError('non-broadcastable output operand')
+    self._fill(self.data, r.data)
+    return self
+
+  def __iadd__(self, o):
+    return self._inplace(o, lambda a, b: a + b)
+
+  def __isub__(self, o):
+    return self._inplace(o, lambda a, b: a - b)
+
+  def __imul__(self, o):
+    return self._inplace(o, lambda a, b: a * b)
+
+  def __itruediv__(self, o):
+    return self._inplace(o, lambda a, b: a / b)
 
   def reshape(self, *shape):
     if len(shape) == 1 and isinstance(shape[0], tuple):
@@ -306,7 +341,11 @@ class Arr(object):
                        '%r %r' % (sa, sb))
 
     r = rec(self.data, shape_of(self.data), o, shape_of(o))
-    return Arr(r) if isinstance(r, list) else r
+    if isinstance(r, list):
+      r = Arr(r)
+      if self.dtype is not None:
+        r.dtype = self.dtype  # recorded dtypes follow arithmetic results
+    return r
 
   def __add__(self, o):
     return self._ew(o, lambda a, b: a + b)
